@@ -26,6 +26,9 @@ for n in ("length", "substring", "now", "contains", "matchesPattern", "geo.lengt
              "a.b." + base, "geo.x." + base]
 NEAR += ["matchespattern", "geo.now", "geo.contains", "distance", "intersects", "geo.zz", "zz", "not", "and", "in", "eq", "anyx",
          "cast", "isof", "exists", "has", "nullx", "truex", "mod1", "geo", "geo.geo.length", "ns.f", "ns.length", "n1.n2.f", "x.geo.length"]
+# Unicode compatibility look-alikes (\w matches them): full-width / math-bold letters and digits are NOT the ASCII names
+NEAR += ["\uff43oncat", "con\uff43at", "\uff4eow", "\uff47eo.distance", "geo.distance\uff12", "\U0001d427\U0001d428\U0001d430", "len\u0261th", "\uff4cength",
+         "\uff47eo.length", "lengt\u02b0", "\u017fubstring", "\u212aontains"]
 NEAR += ["geo." + n for n in REF_FUNCTIONS if "." not in n]      # every bare built-in moved into the geo namespace
 NAMES = BUILTINS + sorted(set(NEAR) - set(BUILTINS))
 
